@@ -28,7 +28,7 @@ def shards(tier):
 
 
 def required_classes(tier):
-    out = ["derived-configurations", "hash-colliding-operands", "interleaved-configurations", "W4:GF(p)", "W4:GF(p^2)", "W4:GF(2^12)", "int-operand", "div-by-zero", "pow:>=750bit", "laws"]
+    out = ["soak:distinct-inverses", "derived-configurations", "hash-colliding-operands", "interleaved-configurations", "W4:GF(p)", "W4:GF(p^2)", "W4:GF(2^12)", "int-operand", "div-by-zero", "pow:>=750bit", "laws"]
     for impl in ("ref", "opt"):
         for d in (1, 2, 12):
             out.append("real:%s:deg%d" % (impl, d))
@@ -213,6 +213,24 @@ def run(rec):
     interleaved_configurations(rec, rng, quick)
     hash_colliding_operands(rec, rng, quick)
     derived_configurations(rec, rng, quick)
+    if rec.shard == 5 or not quick:
+        from .common import soak_size, soak_then_reprobe
+        import py_ecc.fields as pf
+        for cname in ("optimized_bls12_381_FQ", "bn128_FQ"):
+            cls = getattr(pf, cname)
+            p_ = cls.field_modulus
+            a0 = cls(rng.randrange(1, p_))
+            first = [rng.randrange(1, p_) for _ in range(3)]
+
+            def distinct_inv(cls=cls, a0=a0, p_=p_):
+                j = 0
+                while True:
+                    j += 1
+                    v = (j * 0x9E3779B97F4A7C15 + (j << 200)) % p_ or 1
+                    yield (lambda v=v: (call(lambda: a0 / cls(v)), call(lambda: a0 / v)))
+            soak_then_reprobe(rec, "distinct-inverses", [lambda v=v: (call(lambda: a0 / cls(v)), call(lambda: cls(v) ** 3)) for v in first], distinct_inv(), soak_size(["py_ecc.utils", "py_ecc.fields.field_elements", "py_ecc.fields.optimized_field_elements"]))
+    else:
+        rec.case("soak:distinct-inverses", None, nontrivial=False)
     # degree-12 extensions of GF(2), GF(3), GF(5), GF(7)
     mrng = random.Random(rec.seed * 7919 + 12)
     for p in (2, 3, 5, 7):
